@@ -1,7 +1,7 @@
 (* The flags of value.New() and the obligations of OptRel.flags_ok; witnesses that the flags of the
    pinned commit (=, &, | commutative) and the regrouping of * across int and float break the
    regrouping law; the purity result of GenerateFunc excludes calls of impure static functions. *)
-From P2 Require Import Base.Prelude Base.PreludeProofs Sem.Num Sem.Syntax Sem.Ops Sem.Lib Sem.Ref Sem.Gen Sem.Opt Sem.OptRel Sem.OptRelProofs.
+From P2 Require Import Base.Prelude Base.PreludeProofs Sem.Num Sem.Syntax Sem.Ops Sem.Lib Sem.Ref Sem.Gen Sem.Sim Sem.RelProofs Sem.Opt Sem.OptRel Sem.OptRelProofs.
 Require Import Lia.
 Local Open Scope Z_scope.
 
@@ -87,10 +87,75 @@ Proof.
   vm_compute in H1. destruct H1 as [H1|[H1|H1]]; discriminate.
 Qed.
 
-Theorem regroup_ok_value_refuted : ~ regroup_ok value_flags.
+(* why the commutative flag of * was removed from value.New() *)
+Theorem regroup_ok_mul_commutative_refuted : ~ regroup_ok value_flags_mul_commutative.
 Proof.
   intros H. destruct (H op_mul true eq_refl) as [_ L]. exact (regroup_mul_mixed_refuted L).
 Qed.
+
+(* ---------- the flags of value.New() now ---------- *)
+
+Lemma assoc_all_noncomm (l : list name) op p :
+  assoc op (map (fun o => (o, (true, false))) l) = Some (p, true) -> False.
+Proof.
+  induction l as [|k l IH]; simpl; [discriminate|].
+  destruct (str_eqb op k); [intros H; inv H|auto].
+Qed.
+
+Theorem regroup_ok_value : regroup_ok value_flags.
+Proof. intros op pure H. exfalso. unfold op_flags in H. cbn [value_flags f_ops value_ops] in H. eapply assoc_all_noncomm; eauto. Qed.
+
+Theorem regroup_exact_ok_value : regroup_exact_ok value_flags.
+Proof. intros op pure H. exfalso. unfold op_flags in H. cbn [value_flags f_ops value_ops] in H. eapply assoc_all_noncomm; eauto. Qed.
+
+Theorem regroup_exact_ok_strict fl : regroup_exact_ok fl -> regroup_exact_ok (strict fl).
+Proof. intros H op pure E. apply (H op pure). exact E. Qed.
+
+(* only throw fails with a thrown text *)
+Lemma vless_no_throw a b t : vless a b <> Err (Some t).
+Proof.
+  destruct a, b; cbn; try discriminate;
+    repeat match goal with |- context [match ?x with _ => _ end] => destruct x end; discriminate.
+Qed.
+
+Lemma pick_min_no_throw l : forall m t, pick_min m l <> Err (Some t).
+Proof.
+  induction l as [|v l IH]; intros m t; cbn [pick_min]; [discriminate|].
+  pose proof (vless_no_throw v m t). destruct (vless v m) as [[|]| | | |]; auto; try discriminate. congruence.
+Qed.
+
+Lemma pick_max_no_throw l : forall m t, pick_max m l <> Err (Some t).
+Proof.
+  induction l as [|v l IH]; intros m t; cbn [pick_max]; [discriminate|].
+  pose proof (vless_no_throw m v t). destruct (vless m v) as [[|]| | | |]; auto; try discriminate. congruence.
+Qed.
+
+Lemma run_static_throws f args t : run_static f args = Err (Some t) -> str_eqb f n_throw = true.
+Proof.
+  unfold run_static. destruct (str_eqb f n_throw); [reflexivity|]. intros H. exfalso. revert H.
+  repeat match goal with
+         | |- context [if str_eqb f ?n then _ else _] => destruct (str_eqb f n)
+         end;
+  try (destruct args as [|a1 [|a2 [|a3 rest]]]; try discriminate;
+       try (apply pick_min_no_throw); try (apply pick_max_no_throw);
+       repeat match goal with
+              | |- context [match ?x with _ => _ end] => destruct x; cbn [bind ofl to_string]; try discriminate
+              end; fail).
+  - destruct args as [|v [|? ?]]; try discriminate. destruct v; cbn [to_string bind]; try discriminate.
+    + destruct (fl_to_str f0); discriminate.
+    + destruct b; discriminate.
+  - destruct args as [|v [|? ?]]; try discriminate; destruct v; try discriminate.
+    unfold ofl. destruct (fl_mul f0 f0); discriminate.
+Qed.
+
+Theorem pure_is_silent_value : pure_is_silent value_flags.
+Proof.
+  intros f args t P H. apply run_static_throws in H. apply str_eqb_true in H. subst f.
+  vm_compute in P. discriminate.
+Qed.
+
+Theorem flags_ok_value : flags_ok value_flags.
+Proof. split; [apply fold_agrees_all|]. split; [apply regroup_ok_value|apply pure_is_silent_value]. Qed.
 
 (* ---------- * on integers: wrap64 multiplication is associative and commutative ---------- *)
 
